@@ -547,7 +547,7 @@ def gen_cases(ctx, nreqs):
     """nreqs[qi] = requests an undisturbed run of scenario qi makes on a warm environment"""
     rng = ctx.subrng('cases')
     cases = []
-    n = ctx.size(24, 0)
+    n = ctx.size(20, 0)
     allq = list(range(len(SCEN)))
     if ctx.quick:
         for i in range(n):
